@@ -19,4 +19,21 @@ CHECKS = {
          "TLC checks the per-byte decomposition lemma of the codec and emits its 4x256 tables; the harness replays tables, lattice and 2-bit words and sweeps 10^6 seeded words (quick) or all 2^32 words and byte quadruples (thorough).",
          "the four-lookup composition of an expectation is trusted (TLC-checked lemma over the lattice)", "4/C16"),
 }
+
+WMNOTE = "RV32.tla is the reference for the sequential result; failing observations inside a listed finding class (spec/Findings.tla x configuration, see known_findings.json) are reported as KNOWN-FINDING; bounded exploration"
+def wm(pid, fam, text, ref):
+    return ("model_checking", "TLC-generated program family (%s, expectations from RV32!Step) replayed on the real variants; verdict on the property's focus set" % fam, text, WMNOTE, ref)
+CHECKS.update({
+ "C01": wm("C01", "spec/General.tla: exhaustive up to the length bound + seeded simulation of long programs with loops",
+           "Every program of the General family up to the bound and simulated long programs run on all 33 configurations; the whole final register file and memory must equal the final state of the sequential specification.", "4/C01"),
+ "C03": wm("C03", "spec/Families.tla Shadow", "Branch-shadow programs (fast/slow producer x 10 branch kinds x shadows of register writes, stores, loads, jal) on MVP-4..8 x parallelism 1..4; the registers and bytes the shadow would write must keep their sequential values and the run must not fail.", "4/C03"),
+ "C04": wm("C04", "spec/Families.tla RegDep", "All register-reuse sequences up to length 3/4 with slow producers on MVP-4..8 x parallelism; every register must hold the sequential value.", "4/C04"),
+ "C05": wm("C05", "spec/Families.tla MemWalk", "Counted load/store/read-modify-write walks over an 8 KB memory (more lines than any cache, dirty evictions) on MVP-3..8; re-read sum and whole final memory must equal the sequential ones.", "4/C05"),
+ "C07": wm("C07", "all families + Err", "All families and the Err family on all configurations under a tick budget derived from the sequential instruction count; verdict = budget overrun (VerifTick hook), recovered panic, blocked run, or a defined error not returned as an error value.", "4/C07"),
+ "C08": ("model_checking", "TLC-selected inputs (families of spec/Families.tla, General.tla) run repeatedly, concurrently, and with a reused parsed Application whose history used a different initial state", "Every case is run 4 times per configuration (2 concurrently) plus once with an Application that was first run on another variant from another initial state; cycles, registers and memory must be identical.", "goroutine interleavings and map orders are sampled by repetition, not enumerated; the specification's role is input selection and the single expected result", "4/C08"),
+ "C09": wm("C09", "spec/Families.tla Tail", "Every tail of 1..3 instructions (load/store miss and hit, dependent ALU, mul) x exit by ret or by running past the end, on MVP-4..8 x parallelism; the registers and bytes the tail writes must hold the sequential values.", "4/C09"),
+ "C10": wm("C10", "spec/Families.tla MemDep", "Store->load, load->store and store->store pairs on overlapping bytes at distance 1..4 with independent address registers, warm or cold line, on MVP-4..8 x parallelism; the load destination and the conflicting bytes must hold the sequential values.", "4/C10"),
+ "C12": ("model_checking", "TLC-generated programs with the MVP-1 latency ledger of RV32.tla (Cyc1) as the expected cycle count; Timing family for value independence", "MVP-1 cycles must equal the specification's ledger exactly, MVP-2 <= MVP-1, every variant >= ceil(n/width) > 0, and Timing programs with equal path and addresses must take equal cycles on every configuration.", "cycle properties are only judged on runs that agree functionally with the sequential result", "4/C12"),
+})
+
 NOT_APPLICABLE = {}
